@@ -323,6 +323,17 @@ func ruleCallbackClose(p *Prog, r *Report, sp *ssa.Package) {
 				return false
 			}
 			bad := ""
+			// a close() deferred before the callback runs on every exit, whatever happens after
+			deferred := false
+			eachInstr(f, func(b *ssa.BasicBlock, _ int, x ssa.Instruction) {
+				if d, ok := x.(*ssa.Defer); ok && d.Call.StaticCallee() == cls && instrDominates(d, in) {
+					deferred = true
+				}
+			})
+			if deferred {
+				r.OK("CBCLOSE", key, at, "(*box).close() is deferred before the callback is invoked")
+				return
+			}
 			seen := map[*ssa.BasicBlock]bool{}
 			var walk func(b *ssa.BasicBlock, from int)
 			walk = func(b *ssa.BasicBlock, from int) {
@@ -467,5 +478,82 @@ func ruleDiscardNonNeg(p *Prog, r *Report, sp *ssa.Package) {
 			rg := e.rng(arg)
 			r.Bad("NONNEG", key, at, fmt.Sprintf("the count may be negative (range %s): a negative skip passes the remain >= n check and enlarges the remaining size of the box and of every enclosing box, and the close() that follows reads past their ends", rg))
 		})
+	}
+}
+
+// ---- ADJ: what a Read took is charged to the box and to every box around it ---------------------------------------
+//
+// (*box).adjust(n) is how box.Read accounts for bytes taken: it lowers remain of the box (by at most what is left) and
+// hands the same count to the enclosing box, all the way out. The hand-over must be a call of adjust on b.outer —
+// not a direct subtraction on the parent, which stops one level up — and it must depend on nothing but
+// b.outer != nil: a further condition (remain > 0, n > 0 …) leaves the parents uncharged for some reads, by an amount
+// that depends on how the reader chunks its data.
+func ruleAdjustChain(p *Prog, r *Report) {
+	f := p.Func("isobmff", "*box", "adjust")
+	key := "isobmff.(*box).adjust | the count is handed to every enclosing box"
+	if f == nil || len(f.Params) != 2 {
+		r.Undecided("ADJ", key, "-", "unresolved anchor")
+		return
+	}
+	at := p.posStr(f.Pos())
+	bad := ""
+	nRec := 0
+	eachCall(f, func(site ssa.CallInstruction) {
+		c := site.Common()
+		if c.StaticCallee() != f {
+			return
+		}
+		nRec++
+		// receiver: load of b.outer
+		okRecv := false
+		if u, ok := c.Args[0].(*ssa.UnOp); ok && u.Op == token.MUL {
+			if fa, ok := u.X.(*ssa.FieldAddr); ok && fa.X == ssa.Value(f.Params[0]) && fieldName(fa.X.Type(), fa.Field) == "outer" {
+				okRecv = true
+			}
+		}
+		if !okRecv {
+			bad = "the recursive call is not made on b.outer"
+			return
+		}
+		for _, cd := range condsAt(site.Block()) {
+			bo, ok := cd.V.(*ssa.BinOp)
+			isOuterTest := false
+			if ok && (bo.Op == token.NEQ || bo.Op == token.EQL) && (isNilConst(bo.X) || isNilConst(bo.Y)) {
+				v := bo.X
+				if isNilConst(bo.X) {
+					v = bo.Y
+				}
+				if u, ok := v.(*ssa.UnOp); ok && u.Op == token.MUL {
+					if fa, ok := u.X.(*ssa.FieldAddr); ok && fieldName(fa.X.Type(), fa.Field) == "outer" {
+						isOuterTest = true
+					}
+				}
+			}
+			if !isOuterTest {
+				bad = "the hand-over to the enclosing box is conditional on " + shortVal(cd.V) + " (" + p.posStr(instrPos(site)) + "): for some reads the parents are not charged"
+			}
+		}
+	})
+	// no direct store to the parent's remain
+	eachInstr(f, func(_ *ssa.BasicBlock, _ int, in ssa.Instruction) {
+		st, ok := in.(*ssa.Store)
+		if !ok {
+			return
+		}
+		fa, ok := st.Addr.(*ssa.FieldAddr)
+		if !ok || fieldName(fa.X.Type(), fa.Field) != "remain" {
+			return
+		}
+		if fa.X != ssa.Value(f.Params[0]) {
+			bad = "adjust writes the remain of another box directly (" + p.posStr(instrPos(st)) + "): the boxes further out are not charged"
+		}
+	})
+	switch {
+	case bad != "":
+		r.Bad("ADJ", key, at, bad)
+	case nRec == 0:
+		r.Bad("ADJ", key, at, "adjust does not hand the count to b.outer.adjust: only the box itself (and at most its parent) is charged, the boxes further out keep too large a remainder and their close() skips into the next box")
+	default:
+		r.OK("ADJ", key, at, "b.outer.adjust(n) under b.outer != nil only")
 	}
 }
